@@ -339,6 +339,9 @@ def match_known(prop, sig, known):
             elif isinstance(v, dict) and "any_of" in v:
                 if sv not in v["any_of"]:
                     ok = False
+            elif isinstance(v, dict) and "subset_of" in v:
+                if not (isinstance(sv, list) and set(sv) <= set(v["subset_of"])):
+                    ok = False
             elif isinstance(v, dict) and "nonempty_subset_of" in v:
                 if not (isinstance(sv, list) and sv and set(sv) <= set(v["nonempty_subset_of"])):
                     ok = False
